@@ -44,7 +44,8 @@ def perturb(S, ci, before_open, rnd):
                 new[i] = (d, o2, c2, max(o2, c2), min(o2, c2), v2, v2 * c2, round(lu * k, 2), round(ld * k, 2))
         st["bars"] = new
         oid = st["id"]
-        T["div"][oid] = [r for r in T["div"].get(oid, []) if r[2] <= cut_d8]
+        # a dividend that has been ANNOUNCED by the cut is known in both histories (get_dividend reports by announcement date), whenever its ex-date is
+        T["div"][oid] = [r for r in T["div"].get(oid, []) if r[2] <= cut_d8 or r[0] <= cut_d8]
         if not T["div"][oid]:
             T["div"].pop(oid)
         T["split"][oid] = [r for r in T["split"].get(oid, []) if r[0] // 1000000 <= cut_d8]
